@@ -53,8 +53,8 @@ CHECKS = {
          "DESIGN.md §2 C09"),
  "C10": ("exploration", "chain+world",
          "build-time reference model (membership, shares, ids, immutability by raw-store hashes) + exact big-integer projection oracle over real-app histories with staking churn and 10^5 generated snapshots on forks",
-         "Histories of the real app with real staking txs (delegate, undelegate, create validator, unjail), registrations (all chains, one missing, two accounts on a chain), jailing, chains added/activated/removed, attested and just-in-time valset deliveries: every snapshot id found in the raw store is compared with a reference computed from staking and registration state at build time, ids must increase, the current snapshot is the highest id, stored bytes never change except Chains growing; every UpdateValset message and 10^5-10^6 generated snapshots projected through the real code are compared with floor(2^32*share/total) in big integers and the two-thirds gate. Held = held on those snapshots and messages.",
-         "Build blocks carry no txs, so 'at build time' is the state before the block; totals >= 2^63 (a panic before the fix) belong to C09; compass hand-over not driven.",
+         "Histories of the real app with real staking txs (delegate, undelegate, create validator, unjail), registrations (all chains, one missing, two accounts on a chain), jailing, chains added/activated/removed, attested and just-in-time valset deliveries: every snapshot id found in the raw store is compared with a reference computed from staking and registration state at build time, ids must increase, the current snapshot is the highest id, stored bytes never change except Chains growing; every UpdateValset message, every compass deployment (the valset in the constructor of an UploadSmartContract message, decoded with the message's own ABI; a new compass version is released on a throw-away fork every tenth block, half of the time after activating a chain there) and 10^5-10^6 generated snapshots projected through the real code are compared with floor(2^32*share/total) in big integers and the two-thirds gate. Held = held on those snapshots and messages.",
+         "Build blocks carry no txs, so 'at build time' is the state before the block; totals >= 2^63 (a panic before the fix) belong to C09; compass upgrades are released on forks only (the deployments they queue are judged, their attestation is not driven); the CompassHandover message carries no validator set.",
          "DESIGN.md §2 C10"),
  "C11": ("exploration", "chain+world",
          "metamorphic key oracle over reflected single-field mutants of every claim type + differential execution of vote/tally/handler on forked states of the real app",
